@@ -16,6 +16,7 @@ from harness import core, lex
 from harness.c13 import spellings_ace, spellings_member, clean
 
 PROP = "C14"
+TRACE_MODULES = ["Trace_C14"]
 
 
 def exec_job(job):
